@@ -39,6 +39,14 @@ func c02Scenarios() []scOpt {
 		extra: []client.Object{oldDS("ns", "old", map[string]string{"app": "old"}),
 			strayPod("ns", "old-n1", "n1", map[string]string{"app": "old"}, "old"), strayPod("ns", "old-n2", "n2", map[string]string{"app": "old"}, "old")},
 		raw: true, alpha: &w.Alpha{PodDev: []string{"unready"}}, budget: 1})
+	// S7: a valid setting selecting every node and a resource override annotation for the same container on n1
+	set := c10Setting(c10Case{Setting: "main-both"}, "300m")
+	set.Spec.NodeSelector.MatchLabels = map[string]string{}
+	s7 := corpusS2(n2, "1", b, &w.Alpha{Settings: true, PodDev: []string{"unready"}, AddNodes: []string{"n9"}})
+	s7.name = "S7-setting-and-node-override"
+	s7.extra = []client.Object{set}
+	s7.nodeAnnots = map[string]map[string]string{"n1": {"resources.extendeddaemonset.datadoghq.com/ns.foo.main": `{"requests":{"cpu":"200m"}}`}}
+	scs = append(scs, s7)
 	if h.Thorough() {
 		scs[1] = corpusS2(n3, "1", 2, rolloutDev())
 		scs[4] = corpusS3(n3, "1", "auto", 2, canaryDev())
@@ -49,6 +57,7 @@ func c02Scenarios() []scOpt {
 
 func TestC02(t *testing.T) {
 	run := h.NewRun("C02", "model_checking")
+	setupNonConvergence = "C02/setup: a first deployment on a quiet cluster never reaches a fixpoint"
 	type start struct {
 		sc *w.Scenario
 		s  *w.State
